@@ -71,8 +71,8 @@ def evaluate(sid, checks, tier):
         # run the checks from a snapshot of the framework, so that editing /verif meanwhile cannot disturb the evaluation
         snap = os.path.join(scratch, "verif")
         os.makedirs(snap)
-        for d in ("harness", "spec"):
-            shutil.copytree(os.path.join(VERIF, d), os.path.join(snap, d), ignore=shutil.ignore_patterns("__pycache__"))
+        for sub in ("harness", "spec"):
+            shutil.copytree(os.path.join(VERIF, sub), os.path.join(snap, sub), ignore=shutil.ignore_patterns("__pycache__"))
         for f in ("check", "known_findings.json", "properties.jsonl"):
             shutil.copy(os.path.join(VERIF, f), os.path.join(snap, f))
         res = {}
@@ -90,7 +90,47 @@ def evaluate(sid, checks, tier):
     return with_worktree(run)
 
 
+PINNED = "33ae397"
+
+
+def pinned(checks, tier):
+    """run the checks against the pinned commit (before any fix:) in a scratch worktree: the genuine defects of the
+    pinned tree must still be reported"""
+    wt = tempfile.mkdtemp(prefix="mosromgr-pinned-", dir="/tmp")
+    os.rmdir(wt)
+    r = sh(["git", "-C", "/repo", "worktree", "add", "-q", "--detach", wt, PINNED])
+    if r.returncode != 0:
+        raise RuntimeError(r.stderr)
+    scratch = tempfile.mkdtemp(prefix="mosromgr-seedout-", dir="/tmp")
+    out = {}
+    try:
+        for c in checks:
+            t0 = time.time()
+            r = sh([os.path.join(VERIF, "check"), c, "--tier", tier],
+                   env=dict(os.environ, VERIF_REPO=wt, VERIF_SCRATCH=scratch), timeout=7200)
+            lines = [ln for ln in r.stdout.splitlines() if ln.startswith(("VIOLATION", "MACHINERY", "..."))]
+            sigs = sorted({ln.split("clause=")[1].split(" cases=")[0] for ln in lines if "clause=" in ln})
+            more = [ln for ln in lines if ln.startswith("...")]
+            out[c] = {"rc": r.returncode, "wall_s": round(time.time() - t0, 1), "violation_groups_shown": sigs[:12],
+                      "more": more[:1]}
+            print(c, "rc=%s" % r.returncode, len(sigs), "groups shown", more[:1])
+    finally:
+        shutil.rmtree(scratch, ignore_errors=True)
+        sh(["git", "-C", "/repo", "worktree", "remove", "--force", wt])
+        shutil.rmtree(wt, ignore_errors=True)
+    return out
+
+
 def main(argv):
+    if argv[0] == "pinned":
+        tier = "quick"
+        checks = ["C%02d" % i for i in range(1, 21)]
+        res = pinned(checks, tier)
+        json.dump({"commit": PINNED, "tier": tier, "results": res,
+                   "note": "checks run against the pinned commit, before the fix: commits; rc=1 means the check reports "
+                           "the defects of the pinned tree (see known_findings.json 'fixed')"},
+                  open(os.path.join(SEEDED, "pinned-tree.json"), "w"), indent=1)
+        return 0
     if argv[0] == "add":
         src, prop, n = argv[1], argv[2], argv[3]
         dst = argv[4] if len(argv) > 4 else n
